@@ -318,6 +318,8 @@ def add_validation(rep, idx):
     check_refusal(rep, "C08.5", c, "add(): data widths must be equal", "intr_bus.data_width != self.bus.data_width", "ValueError")
     check_refusal(rep, "C08.5", c, "add(): shared-bus err/rty need a corresponding initiator input",
                   "hasattr(self.bus, v) and not hasattr(intr_bus, v)", "ValueError", loop_values=["err", "rty"])
+    from .common import closed_refusals
+    closed_refusals(rep, "C08.5", c, "add() refuses nothing but the documented cases")
     # the registration itself
     appends = [n for n in ast.walk(fi.node) if isinstance(n, ast.Call) and isinstance(n.func, ast.Attribute)
                and n.func.attr == "append" and ast.unparse(n.func.value) == "self._intrs"]
